@@ -273,7 +273,7 @@ func (p *ccbPeerConn) send(env claimEnv) {
 	if after == "close" {
 		p.SelfClosed = true
 		if len(b) > 0 {
-			_ = p.conn.SetWriteDeadline(time.Now().Add(time.Second))
+			_ = p.conn.SetWriteDeadline(time.Now().Add(ccbIOBound))
 			_, _ = p.conn.Write(b)
 		}
 		_ = p.conn.Close()
@@ -282,7 +282,7 @@ func (p *ccbPeerConn) send(env claimEnv) {
 	}
 	p.watch()
 	if len(b) > 0 {
-		_ = p.conn.SetWriteDeadline(time.Now().Add(2 * time.Second))
+		_ = p.conn.SetWriteDeadline(time.Now().Add(ccbIOBound))
 		_, _ = p.conn.Write(b)
 	}
 	if after == "half" {
@@ -609,7 +609,7 @@ func (b *ccbBroker) arrive(g ccbGreet) *ccbPeerConn {
 		}
 	}
 	p.Start = time.Now()
-	conn, err := net.DialTimeout("tcp", b.myAddr, time.Second)
+	conn, err := net.DialTimeout("tcp", b.myAddr, ccbIOBound)
 	if err != nil {
 		p.Refused = true
 		_, _, p.Tok, p.Matching = g.wire(env)
@@ -797,13 +797,19 @@ func ccbDialErrClass(err error) string {
 
 var errCcbNoConn = errors.New("no connection")
 
+// ccbIOBound: upper bound of the harness's OWN I/O steps on loopback / in-memory connections (a
+// scripted peer writing its greeting, connecting to a listener of this process, finding the token at
+// the far end). Each of them returns as soon as the event happens; the bound only ends a wait that
+// can no longer succeed, so it is generous: a loaded machine must not turn into a finding.
+const ccbIOBound = 10 * time.Second
+
 // probeFarEnd writes a token on the returned connection and finds the scripted peer that gets it.
 func probeFarEnd(conn net.Conn, peers []*ccbPeerConn, token []byte) int {
-	_ = conn.SetWriteDeadline(time.Now().Add(time.Second))
+	_ = conn.SetWriteDeadline(time.Now().Add(ccbIOBound))
 	if _, err := conn.Write(token); err != nil {
 		return -1
 	}
-	deadline := time.Now().Add(2 * time.Second)
+	deadline := time.Now().Add(ccbIOBound)
 	for time.Now().Before(deadline) {
 		for _, p := range peers {
 			if p.conn == nil {
